@@ -102,6 +102,13 @@ func (r *stRun) run(b Behaviour, idx int) {
 	_ = pa
 	// replicator workers of store a are held just before they fetch their task's entry
 	h.ParkAt("repl.fetch", func(args []interface{}) bool { return sim.K(args[1]) == sim.K(store) })
+	// In every second behaviour the worker is also held after its fetch until the main loop has handled
+	// the LoadProgress event of that entry, so that all progress events precede the LoadEnd of the batch;
+	// in the others the helper goroutine's event may arrive after LoadEnd (both orders occur in practice).
+	progressFirst := idx%2 == 1
+	if progressFirst {
+		h.ParkAt("repl.fetched", func(args []interface{}) bool { return sim.K(args[1]) == sim.K(store) })
+	}
 	r.res.Behaviours++
 	nw := 0
 	fetchPark := func(c0 cid.Cid) *sim.Parked {
@@ -134,12 +141,22 @@ func (r *stRun) run(b Behaviour, idx int) {
 				r.res.Stats["drift"]++
 				goto done
 			}
-			h.Release(p)
-			// wait until its LoadProgress has been handled and the follow-up fetches are pending
 			want := h.Count("mainloop.recv", store) + 1
+			h.Release(p)
+			var fp *sim.Parked
+			if progressFirst {
+				if fp = parkedFor("repl.fetched", func(p *sim.Parked) bool { return p.Args[2].(cid.Cid).Equals(chain[e-1].GetHash()) }, 4*time.Second); fp == nil {
+					r.res.Inconclusive = append(r.res.Inconclusive, fmt.Sprintf("%s step %d: fetch of entry %d did not return", b.ID, si, e))
+					return
+				}
+			}
+			// wait until its LoadProgress has been handled
 			if !h.WaitFor(4*time.Second, func() bool { return h.CountLocked("mainloop.recv", store) >= want }) {
 				r.res.Inconclusive = append(r.res.Inconclusive, fmt.Sprintf("%s step %d: LoadProgress not handled", b.ID, si))
 				return
+			}
+			if fp != nil {
+				h.Release(fp)
 			}
 		case "JoinAll":
 			// happens by itself once the last fetch has completed
@@ -154,7 +171,7 @@ func (r *stRun) run(b Behaviour, idx int) {
 			stt := a.ReplStats()
 			np := 0
 			for _, q := range h.ParkedList() {
-				if q.Point == "repl.fetch" {
+				if q.Point == "repl.fetch" || q.Point == "repl.fetched" {
 					np++
 				}
 			}
@@ -204,6 +221,7 @@ func (r *stRun) run(b Behaviour, idx int) {
 	}
 done:
 	h.Unpark("repl.fetch")
+	h.Unpark("repl.fetched")
 	for _, p := range h.ParkedList() {
 		h.Release(p)
 	}
